@@ -94,6 +94,22 @@ def run(ids):
         mat[rid] = {"style": meta.get("style"), "functions": meta.get("functions"), "fired": fired, "apply_failed": "APPLY-FAILED" in out, "base": used_base or "HEAD"}
         print(rid, "->", {k: v["keys"][:2] for k, v in fired.items()} or "silent", "APPLY-FAILED" if "APPLY-FAILED" in out else "", flush=True)
         json.dump(mat, open(path, "w"), indent=1)
+    write_md(mat)
+
+
+def merge(paths):
+    """merge shard matrices (REFAC_MATRIX=... runs) into refactors/MATRIX.json and regenerate MATRIX.md"""
+    path = os.path.join(RD, "MATRIX.json")
+    mat = json.load(open(path)) if os.path.exists(path) else {}
+    for p in paths:
+        mat.update(json.load(open(p)))
+    mat = {k: v for k, v in mat.items() if os.path.isdir(os.path.join(RD, k))}
+    json.dump(mat, open(path, "w"), indent=1)
+    write_md(mat)
+    print(len(mat), "refactorings;", len([1 for m in mat.values() if not m["fired"]]), "silent")
+
+
+def write_md(mat):
     lines = ["# Behaviour-preserving refactorings vs checks", "", "Every report here is a false alarm or a fail-closed anchor/idiom report.", "", "| refactoring | style | reports |", "|---|---|---|"]
     for rid in sorted(mat):
         m = mat[rid]
@@ -109,5 +125,7 @@ if __name__ == "__main__":
     os.makedirs(RD, exist_ok=True)
     if sys.argv[1] == "intake":
         intake(sys.argv[2:])
+    elif sys.argv[1] == "merge":
+        merge(sys.argv[2:])
     else:
         run(sys.argv[2:])
